@@ -352,7 +352,7 @@ def join(ctx, recs, insts, gens):
 
 
 def validate(ctx, blocks, tag="tr", own_dir=None, diag=False):
-    """returns (number accepted, [(block, idx)] rejected, TLC's decision counts)"""
+    """returns (accepted blocks, [(block, idx)] rejected, TLC's decision counts)"""
     blocks = list(blocks)
     rej = []
     counts = {}
@@ -373,7 +373,7 @@ def validate(ctx, blocks, tag="tr", own_dir=None, diag=False):
             raise Machinery("the diagnostic run did not accept the whole trace; log %s" % res["log"])
         if len(rej) >= 5:
             ctx.note("chunk %s: validation stopped after 5 rejected executions (%d executions not decided)" % (tag, len(blocks)))
-            return 0, rej, counts
+            return [], rej, counts
         pos = 0
         for bi, b in enumerate(blocks):
             if matched < pos + len(b):
@@ -385,7 +385,7 @@ def validate(ctx, blocks, tag="tr", own_dir=None, diag=False):
             raise Machinery("matched prefix beyond the trace")
     else:
         raise Machinery("more than 100 rejected executions in one chunk")
-    return len(blocks), rej, counts
+    return blocks, rej, counts
 
 
 def validate_all(ctx, blocks, chunks):
@@ -397,7 +397,7 @@ def validate_all(ctx, blocks, chunks):
         for k, v in c.items():
             if k != "matched":
                 tot[k] = tot.get(k, 0) + v
-    return sum(n for n, _, _ in res), [x for _, rj, _ in res for x in rj], tot
+    return [b for acc, _, _ in res for b in acc], [x for _, rj, _ in res for x in rj], tot
 
 
 def diagnose(ctx, block, idx, n):
@@ -439,7 +439,8 @@ def run(ctx):
     nexec = sum(len(i["execs"]) for i in insts)
     if len(blocks) != nexec:
         raise Machinery("driver recorded %d executions of %d" % (len(blocks), nexec))
-    nacc, rej, counts = validate_all(ctx, blocks, ctx.pick(3, 4))
+    good, rej, counts = validate_all(ctx, blocks, ctx.pick(3, 4))
+    nacc = len(good)
     for i, (b, idx) in enumerate(rej):
         h, r = b[0], b[idx]
         failed = diagnose(ctx, b, idx, i) if i < 6 else ["?"]
@@ -455,8 +456,10 @@ def run(ctx):
         ctx.violation(sig, "execution %d (%s, maxAge %d us): line %d %s is not allowed by BadMetricsOps (failed clauses: %s)" % (
             h["id"], h["mode"], h["maxage"], idx, json.dumps(r)[:600], failed),
             dict(hist=h, adds=g.adds, phases=g.phases, events=b[1:idx + 2], failed=failed))
-    good = [b for b in blocks if not any(b is rb for rb, _ in rej)]
-    selftest(ctx, good, gens, strict=not ctx.violations)
+    if ctx.violations:
+        ctx.note("binding self-test skipped: violations are reported")
+    else:
+        selftest(ctx, good, gens)
     cov = ctx.cov
     cov["evaluations"] = sum(len(b) - 1 for b in blocks)
     cov["executions"] = len(blocks)
@@ -604,7 +607,7 @@ def selftest(ctx, good, gens, strict=True):
 
     def one(job):
         name, b2, at = job
-        nacc, rej, _ = validate(ctx, [b2], tag="self_" + name, own_dir="spec_self_" + name)
+        _, rej, _ = validate(ctx, [b2], tag="self_" + name, own_dir="spec_self_" + name)
         return name, (bool(rej) and rej[0][1] == at)
     with ThreadPoolExecutor(max_workers=4) as ex:
         res = list(ex.map(one, jobs))
